@@ -18,6 +18,7 @@ def showEv : Ev → String
   | .emitted m n t => s!"E:{m}:{n}:{t}"
   | .genWarn m n => s!"G:{m}:{n}"
   | .valWarn n => s!"V:{n}"
+  | .replWarn m n => s!"R:{m}:{n}"
 
 /-- `pipe <tag0> <ext0> ( (name module tag ext valid gen) … )` ↦ the model's event list.
     The text of an emitted definition is the backend state it was generated under. -/
